@@ -128,7 +128,7 @@ def run_harness(sessions, threads=16, timeout=1200):
         rc, out = p.returncode, p.stdout.decode("utf-8", "replace")
     except subprocess.TimeoutExpired:
         return [{"id": s.get("id"), "timeout": True, "res": []} for s in sessions]
-    lines = [l for l in out.splitlines() if l.strip()]
+    lines = [l for l in out.split("\n") if l.strip()]      # not splitlines(): U+2028, U+0085 ... inside a JSON string are not line ends
     if rc != 0 or len(lines) != len(sessions):
         return [{"id": s.get("id"), "crash": rc, "res": []} for s in sessions]
     return [json.loads(l) for l in lines]
